@@ -452,3 +452,4 @@ package tcell
 //@   initonly evch quit charset encoder decoder
 //@   channel Screen Mutex
 //@   initfuncs Init NewSimulationScreen
+//@   entry InjectKeyBytes InjectKey InjectMouse GetContents GetCursor GetTitle GetClipboardData
